@@ -4,6 +4,8 @@ import (
 	"context"
 	"errors"
 	"sync"
+
+	"github.com/aperturerobotics/util/verifhook"
 )
 
 // Broadcast implements notifying waiters via a channel.
@@ -19,7 +21,9 @@ type Broadcast struct {
 // broadcast closes the wait channel, if any.
 // getWaitCh returns a channel that will be closed when broadcast is called.
 func (c *Broadcast) HoldLock(cb func(broadcast func(), getWaitCh func() <-chan struct{})) {
+	verifhook.Point("hold-enter", c)
 	c.mtx.Lock()
+	defer verifhook.Point("hold-exit", c)
 	defer c.mtx.Unlock()
 	cb(c.broadcastLocked, c.getWaitChLocked)
 }
@@ -27,9 +31,11 @@ func (c *Broadcast) HoldLock(cb func(broadcast func(), getWaitCh func() <-chan s
 // TryHoldLock attempts to lock the mutex and call the callback.
 // It returns true if the lock was acquired and the callback was called, false otherwise.
 func (c *Broadcast) TryHoldLock(cb func(broadcast func(), getWaitCh func() <-chan struct{})) bool {
+	verifhook.Point("tryhold-enter", c)
 	if !c.mtx.TryLock() {
 		return false
 	}
+	defer verifhook.Point("hold-exit", c)
 	defer c.mtx.Unlock()
 	cb(c.broadcastLocked, c.getWaitChLocked)
 	return true
@@ -40,14 +46,17 @@ func (c *Broadcast) TryHoldLock(cb func(broadcast func(), getWaitCh func() <-cha
 func (c *Broadcast) HoldLockMaybeAsync(cb func(broadcast func(), getWaitCh func() <-chan struct{})) {
 	holdBroadcastLock := func(lock bool) {
 		if lock {
+			verifhook.Point("hold-enter", c)
 			c.mtx.Lock()
 		}
 		// use defer to catch panic cases
+		defer verifhook.Point("hold-exit", c)
 		defer c.mtx.Unlock()
 		cb(c.broadcastLocked, c.getWaitChLocked)
 	}
 
 	// fast path: lock immediately
+	verifhook.Point("tryhold-enter", c)
 	if c.mtx.TryLock() {
 		holdBroadcastLock(false)
 	} else {
@@ -85,6 +94,7 @@ func (c *Broadcast) Wait(ctx context.Context, cb func(broadcast func(), getWaitC
 			return err
 		}
 
+		verifhook.Point("preblock", c)
 		select {
 		case <-ctx.Done():
 			return context.Canceled
